@@ -85,11 +85,11 @@ def spatial_gradient(axis):
               'prysm.x.optym.activation.Softmax', 'prysm.x.optym.activation.GumbelSoftmax', 'prysm.x.optym.activation.DiscreteEncoder',
               'prysm.x.optym.activation.Tanh', 'prysm.x.optym.activation.Arctan', 'prysm.x.optym.activation.Softplus',
               'prysm.x.optym.activation.Sigmoid', 'prysm.x.optym.cost.mean_square_error', 'prysm.x.optym.cost.negative_loglikelihood',
-              'prysm.x.optym.cost.bias_and_gain_invariant_error', 'prysm.x.dm.DM.render_backprop'])
+              'prysm.x.optym.cost.bias_and_gain_invariant_error', 'prysm.x.dm.DM.render_backprop', 'prysm.fttools.fourier_resample_backprop'])
 def adjoint_tests(which):
     """BOUNDED: inner-product (adjoint) tests for the linear companions and directional-derivative tests for the non-linear ones on
     seeded inputs: non-square and unequal pupil / mask shapes, real and complex masks and Lyot stops, shifts, node parameters, masked
-    and unmasked costs, Gumbel-softmax with frozen noise and annealed temperature, DM geometries (shift, pad, crop) without rotation."""
+    and unmasked costs, Gumbel-softmax with frozen noise and annealed temperature, DM geometries (shift, pad, crop, resample) without rotation."""
     import numpy as np
     rng = np.random.default_rng(Int('seed', 0, 10 ** 6))
     pr = get('prysm.propagation')
@@ -240,12 +240,23 @@ def adjoint_tests(which):
         yy, xx = np.mgrid[:s, :s]
         ifn = np.exp(-((yy - s // 2) ** 2 + (xx - s // 2) ** 2) / (2 * 2.0 ** 2))
         Nact = int(rng.integers(2, 5))
-        Nout = int(rng.choice([s, s + 6, s - 6, s + 5, s - 5, s - 7, s + 9]))       # pad and crop by even and odd amounts
+        # resampled output (upsample != 1) in half of the cases; then pad / crop relative to the resampled size
+        up = float(rng.choice([1, 1, 1, 2, 0.5, 1.5, 0.75, 1.25]))
+        si = int(s * up)
+        Nout = int(si + rng.choice([0, 6, -6, 5, -5, -7, 9]))       # pad and crop by even and odd amounts
         shift = (0, 0) if rng.random() < 0.5 else (float(rng.uniform(-1, 1)), float(rng.uniform(-1, 1)))
-        dm = DM(ifn, Nout=Nout, Nact=Nact, sep=4, shift=shift)
+        dm = DM(ifn, Nout=Nout, Nact=Nact, sep=4, shift=shift, upsample=up)
         acts = rng.standard_normal(dm.actuators.shape)
         dm.update(acts)
         out = dm.render(wfe=True).copy()
         ybar = rng.standard_normal(out.shape)
         back = dm.render_backprop(ybar.copy(), wfe=True)
         check('render-adjoint-%s-influence-function' % ('odd' if s % 2 else 'even'), bool(np.isclose((ybar * out).sum(), (back * acts).sum(), rtol=1e-6)))
+        # the resampling step on its own, any shape and zoom: <y, R f> = <R^H y, f>
+        ft = get('prysm.fttools')
+        mm, nn = int(rng.integers(6, 24)), int(rng.integers(6, 24))
+        z = float(rng.choice([2, 0.5, 1.5, 0.75, 1.3]))
+        f_ = rng.standard_normal((mm, nn))
+        Rf = ft.fourier_resample(f_, z)
+        y_ = rng.standard_normal(Rf.shape)
+        check('fourier_resample-adjoint', bool(np.isclose((y_ * Rf).sum(), (ft.fourier_resample_backprop(y_, z, (mm, nn)) * f_).sum(), rtol=1e-9)))
